@@ -84,61 +84,8 @@ func (ex *Exec) loopEnv(fr *Frame, st *State, h *ssa.BasicBlock, phiVals map[*ss
 		}
 	}
 	if _, has := env.vars["$n"]; !has {
-		var cands []Value
-		var condCands []Value
-		for p, v := range phiVals {
-			if p.Block() != h {
-				continue
-			}
-			if _, _, isInt := intBits(p.Type()); !isInt {
-				continue
-			}
-			switch p.Comment {
-			case "rangeindex":
-				cands = []Value{{T: tInt, L: []*Term{Add(v.L[0], Int(1))}}}
-				condCands = cands
-			case "rangeint.iter":
-				cands = []Value{{T: tInt, L: []*Term{v.L[0]}}}
-				condCands = cands
-			}
-			if len(condCands) > 0 {
-				break
-			}
-			start, step := int64(0), false
-			okStart := false
-			for _, e := range p.Edges {
-				switch x := e.(type) {
-				case *ssa.Const:
-					if x.Value != nil && x.Value.Kind() == constant.Int {
-						if c, exact := constant.Int64Val(x.Value); exact {
-							start, okStart = c, true
-						}
-					}
-				case *ssa.BinOp:
-					if x.Op == token.ADD {
-						if c, isC := x.Y.(*ssa.Const); isC && x.X == ssa.Value(p) && c.Value != nil && c.Value.Kind() == constant.Int {
-							if cv, exact := constant.Int64Val(c.Value); exact && cv == 1 {
-								step = true
-							}
-						}
-					}
-				}
-			}
-			if okStart && step && len(p.Edges) == 2 {
-				nv := Value{T: tInt, L: []*Term{Sub(v.L[0], Int(start))}}
-				cands = append(cands, nv)
-				if ifi, isIf := h.Instrs[len(h.Instrs)-1].(*ssa.If); isIf {
-					if b, isB := ifi.Cond.(*ssa.BinOp); isB && (stripConv(b.X) == ssa.Value(p) || stripConv(b.Y) == ssa.Value(p)) {
-						condCands = append(condCands, nv)
-					}
-				}
-			}
-		}
-		switch {
-		case len(condCands) == 1:
-			env.vars["$n"] = condCands[0]
-		case len(cands) == 1:
-			env.vars["$n"] = cands[0]
+		if nv, ok := iterCount(h, func(p *ssa.Phi) (Value, bool) { v, ok := phiVals[p]; return v, ok }); ok {
+			env.vars["$n"] = nv
 		}
 	}
 	if nv, ok := env.vars["$n"]; ok {
@@ -148,6 +95,67 @@ func (ex *Exec) loopEnv(fr *Frame, st *State, h *ssa.BasicBlock, phiVals map[*ss
 	}
 	ex.applyAliases(env, fr.fn)
 	return env
+}
+
+// iterCount: the number of completed iterations of the loop with header h, from its header phis.
+func iterCount(h *ssa.BasicBlock, phiOf func(*ssa.Phi) (Value, bool)) (Value, bool) {
+	var cands []Value
+	var condCands []Value
+	for _, ins := range h.Instrs {
+		p, isPhi := ins.(*ssa.Phi)
+		if !isPhi {
+			break
+		}
+		v, ok := phiOf(p)
+		if !ok || len(v.L) != 1 {
+			continue
+		}
+		if _, _, isInt := intBits(p.Type()); !isInt {
+			continue
+		}
+		switch p.Comment {
+		case "rangeindex":
+			return Value{T: tInt, L: []*Term{Add(v.L[0], Int(1))}}, true
+		case "rangeint.iter":
+			return Value{T: tInt, L: []*Term{v.L[0]}}, true
+		}
+		start, step := int64(0), false
+		okStart := false
+		for _, e := range p.Edges {
+			switch x := e.(type) {
+			case *ssa.Const:
+				if x.Value != nil && x.Value.Kind() == constant.Int {
+					if c, exact := constant.Int64Val(x.Value); exact {
+						start, okStart = c, true
+					}
+				}
+			case *ssa.BinOp:
+				if x.Op == token.ADD {
+					if c, isC := x.Y.(*ssa.Const); isC && x.X == ssa.Value(p) && c.Value != nil && c.Value.Kind() == constant.Int {
+						if cv, exact := constant.Int64Val(c.Value); exact && cv == 1 {
+							step = true
+						}
+					}
+				}
+			}
+		}
+		if okStart && step && len(p.Edges) == 2 {
+			nv := Value{T: tInt, L: []*Term{Sub(v.L[0], Int(start))}}
+			cands = append(cands, nv)
+			if ifi, isIf := h.Instrs[len(h.Instrs)-1].(*ssa.If); isIf {
+				if b, isB := ifi.Cond.(*ssa.BinOp); isB && (stripConv(b.X) == ssa.Value(p) || stripConv(b.Y) == ssa.Value(p)) {
+					condCands = append(condCands, nv)
+				}
+			}
+		}
+	}
+	switch {
+	case len(condCands) == 1:
+		return condCands[0], true
+	case len(cands) == 1:
+		return cands[0], true
+	}
+	return Value{}, false
 }
 
 func stripConv(v ssa.Value) ssa.Value {
